@@ -492,6 +492,12 @@ fn create_syntax_binding() -> Rc<LexicalScope<Transformer>> {
     BINDINGS.with(|bindings| bindings.clone())
 }
 
+/// A fresh syntax environment on top of the bundled derived forms: `define-syntax` binds in
+/// it, never in the table shared by the whole thread.
+pub fn new_syntax_environment() -> Rc<LexicalScope<Transformer>> {
+    Rc::new(LexicalScope::new_child(create_syntax_binding()))
+}
+
 impl<TokenIter: Iterator<Item = Result<Token>>> Parser<TokenIter> {
     fn from_lexer_primary_syntax(lexer: TokenIter) -> Parser<TokenIter> {
         Self {
@@ -503,10 +509,17 @@ impl<TokenIter: Iterator<Item = Result<Token>>> Parser<TokenIter> {
     }
 
     pub fn from_lexer(lexer: TokenIter) -> Parser<TokenIter> {
+        Self::from_lexer_with_syntax(lexer, new_syntax_environment())
+    }
+
+    pub fn from_lexer_with_syntax(
+        lexer: TokenIter,
+        syntax_env: Rc<LexicalScope<Transformer>>,
+    ) -> Parser<TokenIter> {
         Self {
             current: None,
             lexer: lexer.peekable(),
-            syntax_env: create_syntax_binding(),
+            syntax_env,
             location: None,
         }
     }
